@@ -7,6 +7,8 @@
 package chain
 
 import (
+	"crypto/sha256"
+	"encoding/binary"
 	"encoding/json"
 	"fmt"
 	"os"
@@ -412,4 +414,38 @@ func (c *Chain) BalOn(ctx sdk.Context, addr sdk.AccAddress, denom string) sdkmat
 }
 func (c *Chain) AllBal(ctx sdk.Context, addr sdk.AccAddress) sdk.Coins {
 	return c.App.BankKeeper.GetAllBalances(ctx, addr)
+}
+
+// Digest is a SHA-256 over the sorted (store, key, value) pairs of the named module stores as
+// seen through ctx (O-digest).
+func (c *Chain) Digest(ctx sdk.Context, stores ...string) [32]byte {
+	if len(stores) == 0 {
+		for n := range c.App.AppKeepers.GetKVStoreKey() {
+			stores = append(stores, n)
+		}
+	}
+	sort.Strings(stores)
+	h := sha256.New()
+	var l [8]byte
+	for _, n := range stores {
+		k := c.App.AppKeepers.GetKey(n)
+		if k == nil {
+			panic("no store key " + n)
+		}
+		h.Write([]byte(n))
+		it := ctx.MultiStore().GetKVStore(k).Iterator(nil, nil)
+		for ; it.Valid(); it.Next() {
+			kb, vb := it.Key(), it.Value()
+			binary.BigEndian.PutUint64(l[:], uint64(len(kb)))
+			h.Write(l[:])
+			h.Write(kb)
+			binary.BigEndian.PutUint64(l[:], uint64(len(vb)))
+			h.Write(l[:])
+			h.Write(vb)
+		}
+		it.Close()
+	}
+	var out [32]byte
+	copy(out[:], h.Sum(nil))
+	return out
 }
